@@ -28,7 +28,7 @@ META = {
                  "vm_compute correspondence with fault enumeration and forced schedules",
 }
 
-MODEL = ["theories/Obj/ObjCorr.vo"]
+MODEL = ["theories/Obj/ObjText.vo"]
 PROOFS = ["theories/Props/C18.vo"]
 STATEMENT_FILES = ["theories/Props/C18.v", "theories/Obj/ObjGen.v"]
 
